@@ -32,6 +32,9 @@ Qed.
 Lemma relock_blob c : p_blob (relock c) = p_blob c.
 Proof. unfold relock. destruct (protected c); reflexivity. Qed.
 
+Lemma Forall2_imp {A B} (P Q : A -> B -> Prop) l l' : (forall a b, P a b -> Q a b) -> Forall2 P l l' -> Forall2 Q l l'.
+Proof. intros H F. induction F; constructor; auto. Qed.
+
 Definition locked_or_unprot (c : pkt) : bool := negb (protected c) || all_zero c.
 Lemma all_zero_locked k : forallb all_zero k = true -> forallb locked_or_unprot k = true.
 Proof.
@@ -174,6 +177,16 @@ Section Auto.
     destruct (p_blob c) as [b|]; [|discriminate]. rewrite H. exists b. reflexivity.
   Qed.
 
+  Lemma enter_state st p : primary_protected (k_pkts st) = true ->
+    fst (STEP st (OEnter p)) = match ENTER p (k_pkts st) with
+                               | inl _ => {| k_pkts := map clear (k_pkts st); k_scopes := k_scopes st |}
+                               | inr k' => {| k_pkts := k'; k_scopes := true :: k_scopes st |}
+                               end.
+  Proof. intros Hp. unfold step. rewrite Hp. cbn [negb]. destruct (ENTER p (k_pkts st)); reflexivity. Qed.
+
+  Lemma run_one o st : RUN [o] st = fst (STEP st o).
+  Proof. reflexivity. Qed.
+
   (* with key.unlock(p): body ; normal exit or exception -- also when entering fails half-way through the subkeys *)
   Lemma scope_exit_locks st0 p body o : exit_op o -> forallb scope_neutral body = true -> primary_protected (k_pkts st0) = true ->
     let st := RUN (OEnter p :: body ++ [o]) st0 in
@@ -181,20 +194,23 @@ Section Auto.
     (forall c, In c (k_pkts st) -> protected c = true -> exists b, view c = Locked b) /\
     (forall k', ENTER p (k_pkts st0) = inr k' -> k_scopes st = k_scopes st0).
   Proof.
-    intros Ho Hb Hp. cbv zeta. rewrite run_cons, run_app.
-    assert (Z : forallb all_zero (k_pkts (RUN [o] (RUN body (fst (STEP st0 (OEnter p)))))) = true /\
-                (forall k', ENTER p (k_pkts st0) = inr k' -> k_scopes (RUN [o] (RUN body (fst (STEP st0 (OEnter p))))) = k_scopes st0)).
-    { unfold step at 2. unfold step at 4. rewrite Hp. cbn [negb].
-      destruct (ENTER p (k_pkts st0)) as [kind|k'] eqn:E; cbn [fst].
+    intros Ho Hb Hp. cbv zeta. rewrite run_cons, run_app, run_one, (enter_state st0 p Hp).
+    assert (Z : forall s1, s1 = match ENTER p (k_pkts st0) with
+                               | inl _ => {| k_pkts := map clear (k_pkts st0); k_scopes := k_scopes st0 |}
+                               | inr k' => {| k_pkts := k'; k_scopes := true :: k_scopes st0 |}
+                               end ->
+                forallb all_zero (k_pkts (fst (STEP (RUN body s1) o))) = true /\
+                (forall k', ENTER p (k_pkts st0) = inr k' -> k_scopes (fst (STEP (RUN body s1) o)) = k_scopes st0)).
+    { intros s1 Hs1. destruct (ENTER p (k_pkts st0)) as [kind|k'] eqn:E; subst s1.
       - split; [|discriminate].
         destruct (run_neutral body {| k_pkts := map clear (k_pkts st0); k_scopes := k_scopes st0 |} Hb) as [_ I2].
         cbn [k_pkts] in I2. specialize (I2 (map_clear_all_zero _)).
-        change (RUN [o] ?s) with (fst (STEP s o)). apply exit_keeps_zero; assumption.
+        apply exit_keeps_zero; assumption.
       - destruct (run_neutral body {| k_pkts := k'; k_scopes := true :: k_scopes st0 |} Hb) as [I1 _].
         cbn [k_scopes] in I1.
-        change (RUN [o] ?s) with (fst (STEP s o)). rewrite (exit_clears _ o _ Ho I1). cbn [k_pkts k_scopes].
+        rewrite (exit_clears _ o _ Ho I1). cbn [k_pkts k_scopes].
         split; [apply map_clear_all_zero | reflexivity]. }
-    destruct Z as [Z1 Z2]. split; [exact Z1|]. split; [|exact Z2].
+    destruct (Z _ eq_refl) as [Z1 Z2]. split; [exact Z1|]. split; [|exact Z2].
     apply all_zero_view. exact Z1.
   Qed.
 
@@ -239,7 +255,7 @@ Section Auto.
   Proof.
     induction k as [|c k IH]; intros rnd H; [exists []; auto|].
     inversion H as [|? ? Hc Hk]; subst. destruct (IH (tl rnd) Hk) as (k' & E & F & B).
-    cbn [protect_pkts enter_pkts]. unfold protect_pkt at 1. cbn [p_blob p_fields p_chk unprotect_blob].
+    cbn [protect_pkts enter_pkts]. unfold protect_pkt. cbn [p_blob p_fields p_chk unprotect_blob].
     rewrite zeros_length.
     rewrite (unprotect_std_protect cfb_enc cfb_dec sha1 s2k cfb_inv sha1_len 254 alg 3 halg _ count _ pass (p_fields c) Hc (or_introl eq_refl)).
     rewrite E. eexists. split; [reflexivity|]. cbn [map p_fields p_blob]. rewrite F, B. split; reflexivity.
@@ -264,6 +280,11 @@ Section Sym.
   Lemma guarded_protect_sym mpis pass iv salt count alg halg : guarded (protect_sym mpis pass iv salt count alg halg) = true.
   Proof. reflexivity. Qed.
 
+  Lemma protect_sym_ok mpis pass iv salt count alg halg :
+    EVAL (protect_sym mpis pass iv salt count alg halg) = protect cfb_enc sha1 s2k mpis pass iv salt count alg halg
+    /\ guarded (protect_sym mpis pass iv salt count alg halg) = true.
+  Proof. split; [apply eval_protect_sym | reflexivity]. Qed.
+
   Lemma protect_pkt_export pass alg halg count iv salt c :
     export_secret (protect_pkt cfb_enc sha1 s2k pass alg halg count (iv, salt) c) = protect cfb_enc sha1 s2k (p_fields c) pass iv salt count alg halg.
   Proof.
@@ -274,7 +295,7 @@ Section Sym.
   Qed.
 
   Lemma sym_ok_blob c c' t : p_blob c' = p_blob c -> sym_ok c t -> sym_ok c' t.
-  Proof. unfold sym_ok, protected, export_secret. intros ->. auto. Qed.
+  Proof. intros E H. unfold sym_ok, protected, export_secret in *. rewrite E. destruct (p_blob c); [exact H | discriminate]. Qed.
 
   Lemma init_ok k : Forall2 sym_ok k (map sym_of_pkt k).
   Proof.
@@ -305,7 +326,7 @@ Section Sym.
     - destruct (p_blob c) as [bl|] eqn:Eb; [|discriminate].
       destruct (unprotect_blob cfb_dec sha1 s2k (length (p_fields c)) bl pass); try discriminate.
       destruct (enter_pkts cfb_dec sha1 s2k pass k) as [?|r'] eqn:Er; [discriminate|]. inversion H; subst.
-      constructor; [reflexivity | apply IH; reflexivity].
+      constructor; [cbn [p_blob]; symmetry; exact Eb | apply IH; reflexivity].
   Qed.
   Lemma refl_blobs k : Forall2 (fun c c' : pkt => p_blob c' = p_blob c) k k.
   Proof. induction k; constructor; auto. Qed.
@@ -342,7 +363,7 @@ Section Sym.
     exists syms, Forall2 (fun c t => protected c = true -> export_secret c = EVAL t /\ guarded t = true) (k_pkts (RUN ops st0)) syms.
   Proof.
     destruct (run_sym_ok ops st0 _ (init_ok (k_pkts st0))) as [_ H].
-    eexists. eapply Forall2_impl; [|exact H]. intros c t Hs Hp. destruct (Hs Hp). split; auto.
+    eexists. eapply Forall2_imp; [|exact H]. intros c t Hs Hp. destruct (Hs Hp). split; auto.
   Qed.
 
   Lemma export_obs st : STEP st OExport = (st, BExported (map export_secret (k_pkts st))).
